@@ -2,7 +2,7 @@ SPECIFICATION Spec
 CONSTANTS
   Accounts = {1}
   Keys = {1}
-  MaxDepth = 4
+  MaxDepth = 3
 INVARIANTS TypeOK SurvivingEquivalent SnapIdsOrdered
 PROPERTY RevertRestores
 CHECK_DEADLOCK FALSE
